@@ -3,7 +3,7 @@
 # Confirms a seeded change (compiles, suite passes, demo fails with / passes without), stores it under
 # /verif/seeded/<seed-id>/, runs the given checks against it (applied to /repo, reverted afterwards).
 set -u
-WT=/tmp/wt/$1; SID=$2; shift 2
+WT=${WTROOT:-/tmp/wt}/$1; SID=$2; shift 2
 OUT=/verif/seeded/$SID; mkdir -p $OUT
 cd $WT
 git diff -- . ':(exclude)*/tests/demo_*' > $OUT/patch.diff
